@@ -38,7 +38,7 @@ def run(ctx):
     if not q:
         three += ctx.tlc_gen("MC_Persist", gen(procs="{1, 2, 3}", quotas="{1, 2}", kinds=BOTH, race="TRUE", view="", invs="SimEmitQuiet", **CONC),
                              "walks3", simulate=(2000, 40), workers=4)
-    scripts += cap(ctx, three, 120 if q else 4000)
+    scripts += cap(ctx, three, 120 if q else 3000)
     scripts = [[st for st in s if st["op"] != "Recover"] for s in scripts]
     ctx.assume("one tenant, quota 1-2, 2-3 threads, each creating one node (or relationship) with its own id",
                "the counters are judged when nothing is in flight (after every call returned) and after each of two recoveries on the "
@@ -47,7 +47,7 @@ def run(ctx):
                "schedules are replayed by parking each thread at the hook points; a thread blocked on a lock is left running and its "
                "steps are recorded when they happen")
     sp = ctx.write_scripts("persist-conc", scripts)
-    tr = ctx.run_harness("persist", sp, name="persist-conc", args=["mode=conc", "jobs=%d" % min(JOBS, 6)], timeout=3000, env=harness_env())
+    tr = ctx.run_harness("persist", sp, name="persist-conc", args=["mode=conc", "jobs=%d" % min(JOBS, 6)], timeout=7200, env=harness_env())
     ctx.validate("Persist_Trace", TRACE.format(bind_usage="TRUE"), tr, name="persist-conc", jobs=JOBS, corrupt=corrupt_conc)
     # impl -> spec: free-running threads, events ordered by sequence numbers taken at the hook points
     seen, configs = set(), []
@@ -58,6 +58,6 @@ def run(ctx):
             seen.add(key)
             configs.append(head)
     fp = ctx.write_scripts("persist-free", configs)
-    ft = ctx.run_harness("persist", fp, name="persist-free", args=["mode=free", "runs=%d" % (8 if q else 100), "seed=%d" % ctx.seed, "jobs=%d" % min(JOBS, 6)],
-                         timeout=3000, env=harness_env())
+    ft = ctx.run_harness("persist", fp, name="persist-free", args=["mode=free", "runs=%d" % (8 if q else 30), "seed=%d" % ctx.seed, "jobs=%d" % min(JOBS, 6)],
+                         timeout=7200, env=harness_env())
     ctx.validate("Persist_Trace", TRACE.format(bind_usage="TRUE"), ft, name="persist-free", jobs=JOBS, corrupt=corrupt_conc)
